@@ -33,7 +33,8 @@ func (c Config) workerCmd(prop string) []string {
 		return []string{filepath.Join(c.BinDir, "worldk.test"), "-test.run=^TestWorker$", "-test.timeout=0"}
 	}
 	if prop == "C09" {
-		return []string{filepath.Join(c.BinDir, "verifsim-c09")}
+		// a test binary: its wall-clock scenario needs testing/synctest
+		return []string{filepath.Join(c.BinDir, "verifsim-c09"), "-test.run=^TestWorker$", "-test.timeout=0"}
 	}
 	return []string{filepath.Join(c.BinDir, "verifsim")}
 }
@@ -62,7 +63,9 @@ func (c Config) runFor(limit time.Duration, prop string, extraEnv []string, args
 		defer cancel()
 	}
 	cmd := exec.CommandContext(ctx, w[0], append(w[1:], args...)...)
-	cmd.Env = append(os.Environ(), extraEnv...)
+	// every worker-binary process (worker, shrink, replay, context) runs on one P unless told
+	// otherwise: what a worker found is confirmed under the conditions it was found in
+	cmd.Env = append(append(os.Environ(), "GOMAXPROCS="+strconv.Itoa(envInt("VERIF_WORKER_PROCS", 1))), extraEnv...)
 	var so, se strings.Builder
 	cmd.Stdout, cmd.Stderr = &so, &se
 	err := cmd.Run()
